@@ -20,7 +20,7 @@ type c06 struct{ base }
 
 func init() {
 	runner.Register(&c06{base{id: "C06", level: "exploration",
-		rule: "(a) typed matrix, exhaustive: every comparator x (11 x 11) left/right kinds (ten types + absent; left a path, right a path or a :value) with 2 representative values each; every function x argument kinds; BETWEEN and IN x kinds; paths through missing parents and list indexes inside / at / past the end; #name placeholders for 20 attribute names that are no identifiers (a.b, l[0], a b, 1a, reserved words …) at top level and as map members, on items with / without the literally named attribute and with / without the decoy a path reading of the name would address; (b) seeded ASTs to depth 4 (thorough 6) over a 6-attribute item universe incl. nested paths and #aliases, rendered with random legal spacing and only the parentheses precedence requires; (c) a sample replayed through PutItem condition, Scan filter and Query key+filter on both adapters. Monitors: result in the oracle's admissible set {true,false,reject}; a runtime panic is never admissible; the item passed in is deep-compared before/after; the same case re-evaluated with permuted set-member order must agree. non-trivial = mentions >=1 present attribute and the oracle's value changes under some single-attribute removal; distinct by (AST skeleton, operand kind vector).",
+		rule: "(a) typed matrix, exhaustive: every comparator x (11 x 11) left/right kinds (ten types + absent; left a path, right a path or a :value) with 2 representative values each; every function x argument kinds; BETWEEN and IN x kinds; paths through missing parents and list indexes inside / at / past the end; #name placeholders for 20 attribute names that are no identifiers (a.b, l[0], a b, 1a, reserved words …) at top level and as map members, on items with / without the literally named attribute and with / without the decoy a path reading of the name would address; (b) seeded ASTs to depth 4 (thorough 6) over a 6-attribute item universe incl. nested paths and #aliases, rendered with random legal spacing and only the parentheses precedence requires; (c) a sample replayed through PutItem condition, Scan filter and Query key+filter on both adapters. Monitors: result in the oracle's admissible set {true,false,reject}; a runtime panic is never admissible; the item passed in is deep-compared before/after; the same case re-evaluated with permuted set-member order must agree. non-trivial = mentions >=1 present attribute and the oracle's value changes under some single-attribute removal; distinct by (AST skeleton, operand kind vector). Comparisons are also written value-first (cmp-vp, order-vp).",
 		assumptions: commonAssumptions}})
 }
 
